@@ -710,6 +710,11 @@ class CallMixin(ExprMixin):
                 self.check_atomic_inv(st, line, f"before-await-{fi.name}")
         old = st.clone()
         sctx = self.spec_ctx(fi, frame, (old, frame), ghosts)
+        if may_suspend:
+            # other tasks run while the callee is suspended: their effects (the caller's rely) happen BEFORE the callee returns,
+            # so the callee's postcondition - proved under the callee's own rely - speaks about the state at return time and
+            # is assumed after them; whatever it does not constrain stays as the interference left it
+            self.apply_rely(st, ctx, line, check_inv=False)
         for p in c.modifies:
             self.havoc_path(st, sctx, p)
         if fi.is_async and "suspensions" in st.heap[st.ghost] and "ghost.suspensions" not in c.modifies:
@@ -738,6 +743,10 @@ class CallMixin(ExprMixin):
                 ectx = self.spec_ctx(fi, frame, (old, frame), {**ghosts, "exc": exc})
                 for cl in clauses:
                     s2.assume(self.eval_clause(cl, s2, ectx))
+                # the contract under verification may state a (listed) extra assumption on what this callee raises
+                crf = (self.cur_contract.env.get("callee_raise_filter", {}) if getattr(self, "cur_contract", None) is not None else {}).get(fi.qualname)
+                if crf:
+                    s2.assume(self.eval_clause(Clause("callee-raise-filter", crf), s2, ectx))
                 if self.feasible(s2):
                     s2.trace.append(f"raised:{cname}:by:{fi.qualname}")
                     results.append((s2, Raise(exc)))
@@ -754,11 +763,6 @@ class CallMixin(ExprMixin):
                 if self.feasible(sN):
                     self.apply_call_hints(sN, ctx, fi, old, res, line)
                     results.append((sN, res))
-        if may_suspend:
-            # other tasks ran while the callee was suspended: their effects (the caller's rely) are visible afterwards
-            for s9, _r in results:
-                self.apply_rely(s9, ctx, line, check_inv=False)
-            results = [(s9, r9) for s9, r9 in results if self.feasible(s9)]
         if not results and live_before and self.recording:
             raise EngineError(f"{ctx.func.key()}:{line}: applying the contract of {c.key} leaves no feasible outcome "
                               f"(contradictory postcondition or wrong result shape)")
